@@ -161,6 +161,8 @@ class C02(Profile):
         cfg = super().swarm(rng)
         cfg["max_params"] = 0
         cfg["p_param"] = 0.0
+        cfg["herald_boost"] = rng.choice([0.0, 0.1, 0.25])
+        cfg["p_herald_in_ne_out"] = rng.choice([0.2, 0.5, 0.8])
         cfg["max_modes"] = rng.randint(3, 7)
         cfg["max_circuits"] = rng.randint(5, 10)
         return cfg
